@@ -267,7 +267,7 @@ pub fn run_holder_pairs(ctx: &mut Ctx, hps: &[HolderPair]) -> Vec<Vec<Option<Str
 pub fn run(ctx: &mut Ctx, replay: Option<&str>) {
     ctx.rule = "cases: honest issued SD-JWTs and holder presentations with and without KB-JWT (as C01), the C02 tamperings of the issuer-signed JWT, the C03 hand-assembled disclosure lists and the C04 key-binding attacks; \
                 every case that splits into (jwt, disclosures, kb) in its own format is re-expressed in the other one (JSON side: kb_jwt absent / null / string, with and without an extra unknown member) and both are verified with the same resolver / aud / nonce: \
-                same decision and, when accepted, same claims; holders built from both forms of an issued SD-JWT (two create_presentation calls each) must return the same JWT, disclosure multiset and KB-JWT presence; \
+                same decision and, when accepted, same claims; holders built from both forms of an issued SD-JWT (three create_presentation calls each: the flow's own, another selection with the same key-binding arguments, a third selection without key binding) must return the same JWT, disclosure multiset and KB-JWT presence; \
                 inputs that do not split or whose parts cannot be expressed in the other format are skipped and counted; non-trivial = every compared pair (distinct by both texts and aud / nonce)".into();
     if let Some(path) = replay {
         let case = std::fs::read_to_string(path).ok().and_then(|t| serde_json::from_str::<Value>(&t).ok()).and_then(|v| v.get("case").cloned()).unwrap_or(Value::Null);
@@ -325,7 +325,7 @@ pub fn run(ctx: &mut Ctx, replay: Option<&str>) {
         if let Ok((own, other, _)) = transcode(&mut r, &s, f.issue.fmt) {
             let mut second = f.present_args();
             second.sel = if r.chance(1, 2) { select_all(&f.issue.claims).as_object().cloned().unwrap_or_default() } else { gen_selection(&mut r, &f.issue.claims, 5).as_object().cloned().unwrap_or_default() };
-            hps.push(HolderPair { a: (own, f.issue.fmt), b: (other, f.issue.fmt.other()), calls: vec![f.present_args(), second], origin: origin.clone() });
+            hps.push(HolderPair { a: (own, f.issue.fmt), b: (other, f.issue.fmt.other()), calls: vec![f.present_args(), second, PresentArgs::plain(gen_selection(&mut r, &f.issue.claims, 4).as_object().cloned().unwrap_or_default())], origin: origin.clone() });
             flows.push(f);
         }
     }
